@@ -40,7 +40,7 @@ theorem findArm_intLit_nonneg (v : Int) (h : 0 ≤ v) (h2 : v ≤ u64Max) : find
   have : ¬ v < 0 := by omega
   simp [findArm, literalArms, guardHolds, h, h2, this]
 theorem findArm_intLit_big (v : Int) (h : ¬ (v < 0 ∧ -v ≤ u64Max)) (h2 : ¬ (0 ≤ v ∧ v ≤ u64Max)) :
-    findArm .IntLiteral v = some .panics := by
+    findArm .IntLiteral v = some (.errs "IntLiteralOutOfRange") := by
   have h' : ¬ (v < 0) ∨ ¬ (-v ≤ u64Max) := by
     by_cases a : v < 0
     · right; intro b; exact h ⟨a, b⟩
